@@ -44,8 +44,8 @@ claim("C09", "model_checking", "fsmx",
       "Every message type from counterparty and third party, with the id of the target swap or a fresh id, is delivered in every reachable state of every role (also between Start and RecoverSwaps); anything the statement does not admit must leave every swap byte-identical.",
       E1NOTE, "DESIGN.md §5 C09")
 claim("C10", "model_checking", "fsmx",
-      "explicit-state BFS over sequences of local initiations and incoming requests in both channel-id spellings, time-outs and restarts; count of non-terminal swaps per normalised channel id after every event",
-      "All sequences (bounded) of initiations / requests / finishes / restarts on one channel in both spellings on the real service; the invariant is evaluated on the store after every event.",
+      "explicit-state BFS over sequences of local initiations and incoming requests in both channel-id spellings, time-outs and restarts (count of non-terminal swaps per normalised channel id after every event) + stateless DFS over all thread schedules (<=2/3 preemptions, own cooperative scheduler) of RecoverSwaps || request / local initiation, and of two concurrent initiations, on one channel",
+      "All sequences (bounded) of initiations / requests / finishes / restarts on one channel in both spellings on the real service; the invariant is evaluated on the store after every event. Concurrency: every schedule within the preemption bound of a recovery racing with a request or a local initiation for the same channel, and of two racing initiations; afterwards the store must hold at most one non-terminal swap on the channel and a non-terminal restored swap must be active.",
       E1NOTE, "DESIGN.md §5 C10")
 claim("C16", "model_checking", "fsmx",
       "explicit-state BFS to enumerate start states (all four roles, two chains, faults, crash at every effect op) + deterministic fair drain from every one of them",
@@ -84,7 +84,7 @@ claim("C27", "model_checking", "enum",
       "Exhaustive for the stated grids and operation alphabets up to the stated depth.",
       ENUMNOTE, "DESIGN.md §5 C27")
 claim("C28", "model_checking", "enum",
-      "explicit-state BFS by replay over peer-sync operation sequences (polls, request_polls, connects, disconnects, clock jumps, ticks, reopen) on the real PeerSync in testing/synctest bubbles against a reference model",
+      "explicit-state BFS by replay over peer-sync operation sequences (polls, request_polls, connects, disconnects, clock jumps, manual poll passes and cleanup sweeps, reopen; a second exploration around the sweep of an expired peer) on the real PeerSync in testing/synctest bubbles against a reference model",
       "All operation sequences up to the stated depth over 2-3 peers with virtual time; store contents, rate limiting, expiry and compatibility are compared with the model after every operation.",
       ENUMNOTE + "; go1.26.8 testing/synctest", "DESIGN.md §5 C28")
 claim("C29", "model_checking", "enum",
@@ -104,11 +104,11 @@ claim("C01", "model_checking", "fsmx",
       "Exhaustive (bounded) exploration of the real taker state machines and the real Bitcoin validator against every enumerated malicious announcement; the statement's predicate is evaluated from chain ground truth at the instant of every payment attempt.",
       ADVNOTE, "DESIGN.md §5 C01")
 claim("C04", "model_checking", "fsmx",
-      "explicit-state BFS of both Liquid taker roles (tip moved between all steps, invoice CLTV grid, restarts, records rewritten to protocol 6 and recovered) with an oracle at every payment attempt + grid enumeration of both route/request builders",
+      "explicit-state BFS of both Liquid taker roles (tip moved between all steps, invoice CLTV grid, restarts, records rewritten to protocol 6 and recovered; pay-loop families starting in the paying state with failing / pending first attempts and crash points after every durable write) with an oracle at every payment attempt + grid enumeration of both route/request builders",
       "All histories (bounded) with the Liquid tip moved across the window edges between any two steps; window, anchor, invoice CLTV and route limit are checked at every attempt; protocol-6 records must never create a payment. Builders enumerated over the CLTV grid.",
       ADVNOTE, "DESIGN.md §5 C04")
 claim("C05", "model_checking", "fsmx",
-      "explicit-state BFS of both Bitcoin taker roles against the scripted maker (confirmation before/after the start height, blocks between all steps incl. pay retries, restarts, invoice CLTV grid, CLN and LND allowances); inequality oracle at every payment attempt",
+      "explicit-state BFS of both Bitcoin taker roles against the scripted maker (confirmation before/after the start height, blocks between all steps incl. pay retries, restarts, invoice CLTV grid, CLN and LND allowances; pay-loop families starting in the paying state with crash points after every durable write); inequality oracle at every payment attempt",
       "Every payment attempt in every explored history is checked for h_pay + route allowance < confirmation height + 1008.",
       ADVNOTE, "DESIGN.md §5 C05")
 claim("C26", "model_checking", "fsmx",
@@ -175,7 +175,7 @@ def main():
             "guard": "verif",
             "enable": "go test -tags verif -overlay <generated sync-shim overlay> (bin/check does this from /repo's working tree)",
             "baseline_off_cmd": "bin/baseline_off",
-            "source_commits": ["17f08f8"],
+            "source_commits": ["17f08f8", "e94c44a"],
             "add_only": True,
         },
         "engines": [
